@@ -117,11 +117,9 @@ theorem compact_preserves_torn (c : Cfg) (ep : EP) (hrm : ep.rmFirst c = true) :
       exact (Index.get_eq_none_of_not_mem _ _ (fun hm' => hk ((hcov k).mpr hm'))).symm
 
 /-- the encoder used by the closed witnesses: one payload byte per block -/
-def mk0 : Mk := fun es => { hdr := [1, 0, 0, 0, 0, 0, 0, 0, 0, 0, 0, 0, 0, 0, 0, 0], plen := 1, ents := es }
+def mk0 : Mk := mkP 1
 
-theorem mk0_ok : MkOk mk0 := by
-  intro es _
-  exact ⟨⟨rfl, rfl, Nat.one_pos⟩, rfl⟩
+theorem mk0_ok : MkOk mk0 := mkP_ok 1 Nat.one_pos
 
 /-- An entry point that opens the temp without removing it resurrects whatever a stale,
     parseable temp file contains: a key `z` that is not live before is live afterwards.
@@ -152,7 +150,7 @@ theorem not_preserves_of_stale (c : Cfg) (hc : c.truncatesTornTail = false) (ep 
   intro hp
   -- empty main file, stale temp holding key 7
   have hwz : ∀ b ∈ [mk0 [Op.put 7 1]], b.WF := by
-    intro b hb; simp only [List.mem_cons, List.not_mem_nil, or_false] at hb; subst hb; exact (mk0_ok _ (by simp)).1
+    intro b hb; simp only [List.mem_cons, List.not_mem_nil, or_false] at hb; subst hb; exact (mk0_ok _ (by simp) (by decide)).1
   obtain ⟨idx1, h1, hsame⟩ := hp mk0 mk0_ok 0 100 [] (by simp) (some (fileCells 0 [mk0 [Op.put 7 1]])) []
     (by intro k; simp [entsOf, Index.replay, Index.keys])
   obtain ⟨idx2, h2, hget⟩ := compact_stale_temp_resurrects c hc ep hrm mk0 mk0_ok 0 100 0 [] [mk0 [Op.put 7 1]]
@@ -190,7 +188,7 @@ theorem compact_crash_atomic (c : Cfg) (hf : c.closeFsyncs = true) : Atomic c :=
 theorem compact_no_fsync_loses (c : Cfg) (hf : c.closeFsyncs = false) : ¬ Atomic c := by
   intro ha
   have hwf : ∀ b ∈ [mk0 [Op.put 1 1]], b.WF := by
-    intro b hb; simp only [List.mem_cons, List.not_mem_nil, or_false] at hb; subst hb; exact (mk0_ok _ (by simp)).1
+    intro b hb; simp only [List.mem_cons, List.not_mem_nil, or_false] at hb; subst hb; exact (mk0_ok _ (by simp) (by decide)).1
   have hidx := mainIndex_clean c 0 [mk0 [Op.put 1 1]] hwf none
   have hops : compactVia c mk0 (cleanDisk 0 [mk0 [Op.put 1 1]] none) .cli [(1, 10)] 100 =
       [.create .temp, .write .temp 0 (fhCells 0),
@@ -198,7 +196,7 @@ theorem compact_no_fsync_loses (c : Cfg) (hf : c.closeFsyncs = false) : ¬ Atomi
        .write .temp 0 (fhCells 0), .write .temp 0 (fhCells 0), .rename .temp .main] := by
     simp only [compactVia, hidx]
     simp [compactOps, rmTempOps, cleanDisk, openWriter, Disk.get, mainNl_clean, createOps, liveEntries, entsOf,
-      Index.replay, Index.apply, Index.put, Index.del, Index.get, addManyW, addW, closeW, flushW, hf, mk0,
+      Index.replay, Index.apply, Index.put, Index.del, Index.get, addManyW, addW, closeW, flushW, hf, mk0, mkP, WSt.push, WSt.full, maxEnts,
       Disk.applyAll, mainNl, fileCells, headerOf_file]
   have h := ha mk0 mk0_ok 0 100 [mk0 [Op.put 1 1]] hwf none .cli [(1, 10)] 7 1 0
   rw [hops] at h
@@ -232,9 +230,9 @@ example : MkOk mk0 ∧ (∀ b ∈ [mk0 [Op.put 1 1, Op.put 2 5], mk0 [Op.del 1]]
   refine ⟨mk0_ok, ?_, ?_⟩
   · intro b hb
     simp only [List.mem_cons, List.not_mem_nil, or_false] at hb
-    rcases hb with rfl | rfl <;> exact ⟨rfl, rfl, Nat.one_pos⟩
+    rcases hb with rfl | rfl <;> exact (mk0_ok _ (by simp) (by decide)).1
   · intro k
-    simp [entsOf, mk0, Index.replay, Index.apply, Index.put, Index.del, Index.keys]
+    simp [entsOf, mk0, mkP, Index.replay, Index.apply, Index.put, Index.del, Index.keys]
 
 /-! ### The fragment that always holds, and the decision over the extracted facts -/
 
@@ -416,8 +414,8 @@ theorem session_step (c : Cfg) (mk : Mk) (hmk : MkOk mk) (nl bs : Nat) (d : Disk
       Between nl ((d1.applyAll (addManyW mk w items).2).applyAll (closeW c mk (addManyW mk w items).1))
         (Index.replay (Index.replay [] (entsOf blocks)) (items.map (·.1))) := by
     intro d1 w blocks hwf hinv hp hbuf htemp
-    obtain ⟨a, ha, pa⟩ := addManyW_spec mk hmk items d1 w _ hinv
-    obtain ⟨b, hb, hbwf, hfile, hother⟩ := closeW_spec c mk hmk _ _ _ pa.inv
+    obtain ⟨a, ha, pa⟩ := addManyW_spec mk hmk items d1 w _ hinv (by rw [hbuf]; exact maxEnts_pos)
+    obtain ⟨b, hb, hbwf, hfile, hother⟩ := closeW_spec c mk hmk _ _ _ pa.inv (Nat.le_of_lt pa.cnt)
     rw [pa.path, hp] at hfile
     have ht : ((d1.applyAll (addManyW mk w items).2).applyAll (closeW c mk (addManyW mk w items).1)).get .temp = none := by
       rw [hother .temp (by rw [pa.path, hp]; decide), pa.other .temp (by rw [hp]; decide)]; exact htemp
